@@ -8,7 +8,7 @@ from ..gen.render import render_feature
 
 ID = "C06"
 LEVEL = "exploration"
-COLS = ["x", "y", "col", "a.b", "n_1", "Ü", "row.id", "examples.index"]     # a column may be named like a special placeholder: the row cell wins
+COLS = ["x", "y", "col", "a.b", "n_1", "Ü", "row.id", "examples.index", "customer-id", "e-mail", "price/unit", "n°", "q?", "a+b"]     # a column may be named like a special placeholder: the row cell wins
 VALUES = ["", "1", "v w", "x", "y", "col", "ünï", "日本", "a-b", "k=v", "0", "q.r", "Z", "  ".strip(), "it's", "50%", "{name}", "{0}",
           "b\\c", "a:b"]
 TAGVALS = ["a", "b1", "x.y", "k=v", "t-1", "Z", "ü", "Bob\\tMarley", "two\\nlines"]     # the two-character escapes \t \n: in a
@@ -35,7 +35,7 @@ ASSUMPTIONS = [
 REQUIRED = {"expand.count_and_order": {"quick": 1500, "thorough": 100000}, "expand.row_scenario": {"quick": 3000, "thorough": 200000},
             "expand.template_unchanged": {"quick": 1500, "thorough": 100000}, "expand.rows_independent": {"quick": 800, "thorough": 50000},
             "modify.rebuilt": {"quick": 800, "thorough": 50000}, "builder.count": {"quick": 1500, "thorough": 100000}}
-REQUIRED_SEEN = {"schema": 6, "modification": ["add_row", "add_row_object", "add_column", "remove_column"]}
+REQUIRED_SEEN = {"examples_shape": ["section_without_table_before_rows"], "tag_placeholder_column": ["name_with_punctuation"], "schema": 6, "modification": ["add_row", "add_row_object", "add_column", "remove_column"]}
 NSHARDS = {"quick": 16, "thorough": 16}
 
 
@@ -92,6 +92,9 @@ def gen_outline(rng):
                 # outline tags use) hold tag-safe values
                 row.append(rng.choice(TAGVALS) if (c == tagcol or c in ("row.id", "examples.index")) else rng.choice(VALUES + cols))
             rows.append(row)
+        if rng.random() < 0.12:
+            # an Examples section without any table (legal; it has no rows but it still is the ei-th section)
+            order, rows = None, []
         examples.append({"tags": [rng.choice(["e1", "e2", "slow", "k=v"]) for _ in range(rng.randint(0, 2))],
                          "name": rng.choice(["", "E%d" % ei, "E <%s>" % rng.choice(cols), "Block %d" % ei]),
                          "header": order, "rows": rows})
@@ -197,6 +200,13 @@ def one_case(mon, rng, sample=False):
         for ri in range(len(ex["rows"])):
             row_lines[(ei, ri)] = lines.get(key + ("examples", ei, "table", "row", ri + 1))
     nrows = sum(len(e["rows"]) for e in outline_abs["examples"])
+    exs = outline_abs["examples"]
+    if any(e["header"] is None and any(x["rows"] for x in exs[j + 1:]) for j, e in enumerate(exs)):
+        mon.seen("examples_shape", "section_without_table_before_rows")
+    if any(c in outline_abs and False for c in ()):
+        pass
+    if any(("<%s>" % c) in t for t in outline_abs["tags"] for c in ("customer-id", "e-mail", "price/unit", "n°", "q?", "a+b")):
+        mon.seen("tag_placeholder_column", "name_with_punctuation")
     nph = sum(1 for st in outline_abs["steps"] if "<" in st["text"]) + sum(1 for t in outline_abs["tags"] if "<" in t)
     case = {"text": text, "schema": schema}
     mon.case((text, schema), nrows >= 2 and nph >= 2)
